@@ -118,7 +118,7 @@ func genC17(r *Rng, tier string) *c17W {
 			case k < 66:
 				s = append(s, cOp{Op: "bulk", G: g, ID: Pick(r, []string{"a", "b", "c"})})
 			case k < 74:
-				s = append(s, cOp{Op: "query", G: g, Query: Pick(r, []string{"V", "V.out", "E", "V.count", "V.hasLabel", "V.outENull", "V.inENull", "V.bothE", "V.out.in"})})
+				s = append(s, cOp{Op: "query", G: g, Query: Pick(r, []string{"V", "V.out", "E", "V.count", "V.hasLabel", "V.outENull", "V.inENull", "V.bothE", "V.out.in", "V.distinct.out.distinct"})})
 			case k < 80:
 				// a caching client: reads the graph's timestamp, then a listing, and keeps both
 				s = append(s, cOp{Op: "cachedQuery", G: g, Query: Pick(r, []string{"V", "E"})})
@@ -463,6 +463,8 @@ func execC17once(w *c17W, x *Exec) *Outcome {
 							q = gen.StmtsOf(gen.V(), gen.BothE())
 						case "V.out.in":
 							q = gen.StmtsOf(gen.V(), gen.Out(), gen.In())
+						case "V.distinct.out.distinct": // two steps of one traversal ask the manager for temporary storage
+							q = gen.StmtsOf(gen.V(), gen.Distinct(), gen.Out(), gen.Distinct())
 						default:
 							q = gen.StmtsOf(gen.V(), gen.Count())
 						}
